@@ -211,7 +211,10 @@ def execWrX (args : List String) : String :=
         | .ok _ => "/" ++ hex o.d.content
         | _ => ""
       -- self-check of the model: the single-fault run leaves the crash state of the healthy run's operation sequence
-      let tail := if o.d.content == replay c.pre base.d.log.reverse k j && o.d.log.length == k + 1 then tail else tail ++ "/not-a-crash-prefix"
+      -- … stated with the definitions of C11_fault_is_crash_prefix: the destination is the replay of `crashOps k j` of the healthy log
+      let crash := ({ content := c.pre, pos := c.pre.length } : Dest).run (crashOps k j base.d.log.reverse)
+      let tail := if o.d.content == replay c.pre base.d.log.reverse k j && o.d.log.length == k + 1 &&
+          o.d.content == crash.content && o.d.pos == crash.pos && o.d.log == crash.log then tail else tail ++ "/not-a-crash-prefix"
       s!" {k}.{j}={joinOr (o.results.toList.map resName)}/{joinOr (o.hits.toList.map toString)}/{hexN 16 (fnv o.d.content).toNat}/{showCi ci}{tail}"
     s!"n={pts.length}{String.join entries}"
 
